@@ -281,6 +281,31 @@ def cli_line_lost(r):
     return r
 
 
+def cli_underline(r):
+    """the underline of a diagnostic one column to the right (as if another range had been labelled)"""
+    if not r.get("plain") or r.get("exit") != 0 or r.get("mode") == "syntax":
+        return None
+    for k, line in enumerate(r.get("stdout") or []):
+        if "^ " in line and k >= 4 and r["stdout"][k - 4].startswith("error: "):
+            j = line.index("^")
+            r["stdout"][k] = line[:j] + " " + line[j:]
+            return r
+    return None
+
+
+def cli_column(r):
+    """the column in the place line of a diagnostic one too large"""
+    if not r.get("plain") or r.get("exit") != 0 or r.get("mode") == "syntax":
+        return None
+    for k, line in enumerate(r.get("stdout") or []):
+        if " <in>:1:" in line and k >= 1 and r["stdout"][k - 1].startswith("error: "):
+            a, b = line.rsplit(":", 1)
+            if b.isdigit():
+                r["stdout"][k] = a + ":" + str(int(b) + 1)
+                return r
+    return None
+
+
 CORRUPTIONS = {
     "Trace_Lang": [("result value", lang_value), ("result sign", lang_sign), ("result unit", lang_unit),
                    ("one operator application", lang_app), ("error instead of value", lang_error)],
@@ -296,7 +321,8 @@ CORRUPTIONS = {
                     ("compound after CBOR", codec_compound), ("rational after JSON", codec_rational),
                     ("constant re-encodes differently", codec_constant)],
     "Trace_Describe": [("description dropped", describe_drops), ("value", describe_value)],
-    "Trace_Cli": [("digit on stdout", cli_stdout), ("line lost", cli_line_lost)],
+    "Trace_Cli": [("digit on stdout", cli_stdout), ("line lost", cli_line_lost), ("underline of a diagnostic moved", cli_underline),
+                  ("column of a diagnostic", cli_column)],
 }
 
 PER_KIND = 6
